@@ -7,7 +7,10 @@ Correspondence areas (model vs. real code, all 16 configurations x {f64, f128}):
   parse  FromString and UnmarshalText of literals, near misses and arbitrary byte strings (value / err / exp)
   as     As / CheckedAs for the eleven integer target types
   txtfn  txt.Unquote, txt.CommaFromStringNum on arbitrary bytes
-Implementation-side oracles (no Lean model): float (CheckedAs/As to float32/float64 against an exact-rational oracle),
+  (val also: `cfg` = MaxDecimalDigits/Multiplier of both packages, `ext` = f128.Maximum/Minimum; txtfn also: `commai` =
+  txt.Comma[T] of every integer type)
+Every harness line runs under a 2.5 s deadline (`hang`; after three hangs the rest of the stream is skipped).
+Implementation-side oracles (no Lean model): misc (txt.Comma of floats, Fraction text forms), float (CheckedAs/As to float32/float64 against an exact-rational oracle),
 exp (exponent literals: no panic, FromString = From(ParseFloat))."""
 
 
@@ -66,7 +69,7 @@ def run(ctx):
     ctx.lean(props=["Props.C04"], drivers=["drv_c04"])
     ctx.harness("./cmd/c04")
     thm = "C04.%s (model = spec); impl != model on this input"
-    ctx.diff(area="val", driver="drv_c04", n={"quick": 60000, "thorough": 3000000},
+    ctx.diff(area="val", driver="drv_c04", n={"quick": 48000, "thorough": 3000000},
              theorem=thm % "toString_shape / toString_exact / toString_canonical / roundtrip_configs64 / roundtrip_configs128 / comma_shape / withSign_forms")
     ctx.diff(area="parse", driver="drv_c04", n={"quick": 120000, "thorough": 6000000},
              trivial=lambda l, o: o.startswith("exp"),
@@ -82,3 +85,6 @@ def run(ctx):
             "raw/10^D denotes exactly raw/10^D (big.Rat + strconv)")
     _oracle(ctx, "exp", {"quick": 20000, "thorough": 500000},
             "exponent literals: no panic; FromString(s) = From(ParseFloat(s without commas)); entry points agree")
+    _oracle(ctx, "misc", {"quick": 20000, "thorough": 500000},
+            "txt.Comma of floats against an independent grouping of fmt's %v text; Fraction String / StringWithSign / "
+            "MarshalJSON / UnmarshalJSON (denominator > 0) as compositions of the Int renderings")
